@@ -51,9 +51,6 @@ EncValid(sch, enc) ==
   \A i \in 1..Len(sch) :
      (enc[i] = 7 /\ i < Len(sch) /\ enc[i + 1] \in {1, 2}) => ~IsHexB(sch[i + 1])
 
-RECURSIVE Concat(_)
-Concat(ss) == IF ss = <<>> THEN <<>> ELSE Head(ss) \o Concat(Tail(ss))
-
 EncodeScheme(sch, enc) == Concat([i \in 1..Len(sch) |-> Enc(sch[i], enc[i])])
 
 \* F1: every encoding of the first 4 bytes (rest literal), and every choice of at most two
